@@ -389,12 +389,19 @@ func (propC16) Run(scI interface{}) *Outcome {
 			spA2, spB1, spB2 := newSpies(), newSpies(), newSpies()
 			hubA.per[0], hubB.per[0], hubB2.per[0] = spA2, spB1, spB2
 			a2 := observe(spA2, func() (string, error) { return A.Render(mainName, BuildCtx(sc.Prog.Ctx, 0)) })
-			for which, pair := range map[string]struct {
-				e  *twig.Engine
-				sp *Spies
-			}{"engine that had loaded the first version": {B, spB1}, "fresh engine": {B2, spB2}} {
+			for _, pair := range []struct {
+				which string
+				e     *twig.Engine
+				sp    *Spies
+			}{{"engine that had loaded the first version", B, spB1}, {"fresh engine", B2, spB2}} {
+				which := pair.which
 				b2 := observe(pair.sp, func() (string, error) { return pair.e.Render(mainName, BuildCtx(sc.Prog.Ctx, 0)) })
 				o.Probes["renders_compared"]++
+				if a2.Key() != b2.Key() && faulted && b2.Class == "error" {
+					// a disk fault fired during this render (e.g. the n-th stat): the operation may fail
+					o.Probes["render_failed_by_fault"]++
+					continue
+				}
 				if a2.Key() != b2.Key() {
 					return fail(fmt.Sprintf("recompiled template renders differently from its new source: source=%s compiled=%s", a2.Class, b2.Class),
 						fmt.Sprintf("%s, main %q edited to %q\n source engine:   %s\n compiled engine: %s", which, mainName, tail(src2, 200), a2, b2))
